@@ -6,7 +6,7 @@
    reports which tables of the model's post-state differ from the implementation's and
    whether the outcome class agrees; it also evaluates the invariant monitors on the
    implementation's post-state. All comparison logic lives here, in Gallina. *)
-From SaoVerif Require Import Base.Prelude Base.Ints Model.Did Model.DidSpec Model.DidMon Model.Types Model.Monad Model.Bank Model.Select Model.Node Model.Storage Model.Sao Model.App.
+From SaoVerif Require Import Base.Prelude Base.Ints Model.Did Model.DidSpec Model.DidMon Model.Types Model.Monad Model.Bank Model.Select Model.Node Model.Storage Model.Sao Model.Hooks Model.App.
 
 Definition dec_tables (v : value) : option tables :=
   match v with
@@ -139,7 +139,8 @@ Definition is_select_op (op : value) : bool :=
 (** ** application steps (did, node, sao, block boundaries) *)
 Definition family_of_op (op : Op) : string :=
   match op with
-  | OBeginBlock | OEndBlock => "block"
+  | OBeginBlock | OEndBlock _ => "block"
+  | OStaking _ | OSimulate _ => "staking"
   | ODid _ => "did"
   | ONodeCreate _ | ONodeReset _ | OAddVstorage _ _ | ORemoveVstorage _ _ | OClaimReward _ => "node"
   | OSend _ _ _ => "bank"
